@@ -251,7 +251,7 @@ func run(c Case) *pbt.Violation {
 			// the departures must have been processed by lal before publishing goes on
 			for i, cs := range c.Cons {
 				if cs.LeaveAt == k && cons[i] != nil {
-					cons[i].c.Conn.WaitPeerIdle(lalclient.IdleTimeout)
+					cons[i].c.Conn.WaitPeerDone(lalclient.IdleTimeout)
 				}
 			}
 		}
@@ -293,7 +293,7 @@ func run(c Case) *pbt.Violation {
 		}
 	}
 	p.Close()
-	p.Conn.WaitPeerIdle(lalclient.IdleTimeout) // returns once the publisher's session goroutine has ended (teardown done)
+	p.Conn.WaitPeerDone(lalclient.IdleTimeout) // the publisher session goroutine has ended (teardown done)
 	// ---- oracle per consumer ------------------------------------------------
 	index := map[[32]byte][]int{}
 	for i, r := range P.recs {
